@@ -11,20 +11,20 @@ def _replace():
 
 
 def run(ctx):
-    n = {"quick": 320, "thorough": 8000}[ctx.tier]
-    nl = {"quick": 240, "thorough": 6000}[ctx.tier]
+    n = {"quick": 280, "thorough": 5000}[ctx.tier]
+    nl = {"quick": 240, "thorough": 3000}[ctx.tier]
 
     def stages(ctx, mult, suffix, off):
         ctx.stage("c18" + suffix, "lib/controller/federation", "federation", ["C18/zz_verif_c18_test.go"], "TestVerifC18$",
                   n * mult, HDR.format(imports="lib.TokSplit lib.ManifestTok model.C18_model model.C18_run"), seed_offset=off,
-                  shard=20, pam=True, replace=_replace(), env={"VERIF_STAGE": "c18" + suffix})
+                  shard=18, pam=True, replace=_replace(), env={"VERIF_STAGE": "c18" + suffix})
         ctx.stage("c18legacy" + suffix, "lib/controller", "controller", ["C18/zz_verif_c18legacy_test.go"], "TestVerifC18Legacy$",
                   nl * mult, HDR.format(imports="lib.TokSplit lib.ManifestTok model.C18_model model.C18_legacy_run"),
-                  seed_offset=off + 1, shard=40, pam=True, replace=_replace(), env={"VERIF_STAGE": "c18legacy" + suffix})
+                  seed_offset=off + 1, shard=30, pam=True, replace=_replace(), env={"VERIF_STAGE": "c18legacy" + suffix})
     return standard(ctx, "C18", ["model/C18_run.vo", "model/C18_legacy_run.vo"], stages,
                     rule="Conn.CollectionGet by portable data hash with 0-4 gated stub remotes (match / single-token tampering / other / "
                          "malformed manifest, 404, 5xx, hang) released in a generated order, requests exact / with hints / one digit off / "
                          "other length; fetch by uuid; direct rewriteManifest and PortableDataHash on valid, tampered and malformed text; "
                          "distinct by hash of the case term; non-trivial = at least 2 remotes or a successful fetch",
                     assumptions=["MD5 is computed by the Gallina implementation lib/Md5.v (validated by the correspondence)",
-                                 "reply order is enforced by gates; a collection-type reply is followed by waiting for the call to return or for the bad-hash warning (fallback 300 ms)"])
+                                 "reply order is enforced by gates; a collection-type reply is followed by waiting for the call to return or for the bad-hash warning (fallback 2 s)"])
